@@ -30,11 +30,16 @@ META = {
                   "boundary closed (every vertex pair lies in an even number of border faces, handshake proof); "
                   "orientation identity and outwardness over R and over Z for _BoundaryConnectivity, outwardness of the "
                   "standalone extractor when cells are positive in mouette's determinant; vertex/face index maps "
-                  "inverse; no AttributeError for any query order. PARTIAL (named _partial): rotational order around an "
-                  "edge (walks terminate, visit distinct cells, consecutive cells share a face through the edge; the final "
-                  "sort/coverage is only tested), edge index maps (inverse on their domains; totality tested). REFUTED "
-                  "(known finding): rotational sorting raises KeyError on a conforming mesh with an edge whose cells are "
-                  "not face-connected. The hand-written part of the model is tied to the code by kernel-evaluated "
+                  "inverse, edge index maps total both ways and inverse, no exception while building the boundary "
+                  "connectivity; closedness transported to both extracted surfaces, exactly two faces per surface edge "
+                  "under the stated manifold-boundary guard; no AttributeError for any query order; rotational order "
+                  "around an edge for the CELLS (for every start cell: never raises nor runs out of fuel, returns a "
+                  "permutation of the edge's cells/faces, when flagged sorted the cells are duplicate-free with consecutive "
+                  "cells sharing a face through the edge, and it is flagged sorted whenever the mesh is conforming and the "
+                  "cells around the edge are face-connected). PARTIAL (stated in C03_edge_ring's comment): rotational order "
+                  "of the sorted FACE list is only tested. No refuted theorem left: the former known finding (KeyError on "
+                  "an edge whose cells are not face-connected) was repaired in /repo (e464500). "
+                  "The hand-written part of the model is tied to the code by kernel-evaluated "
                   "correspondence batches on generated meshes with random query scripts.",
     "level_note": "Trusted: Coq kernel + vm_compute; the c03 translator; the correspondence harness (mesh generators, "
                   "driver canonicalisation); CPython dict/set/list semantics (set enumeration order enters the model as a "
@@ -315,7 +320,8 @@ def shrink(case, key, deadline):
 
 WITNESS = {"V": [[0, 0, 0], [1, 0, 0], [0, 1, 0], [0, 0, 1], [0, -1, 0], [0, 0, -1]],
            "C": [[0, 1, 2, 3], [0, 1, 4, 5]], "kind": "list", "sort": True,
-           "script": [["edge", 5, "cf"]], "tags": ["witness=two-tets-sharing-an-edge"], "edge_manifold": False}
+           "script": [["edge", 5, "cf"], ["edge", 1, "fc"], ["boundary_edges"], ["enable_bc"], ["cell_to_edge", 1]],
+           "tags": ["witness=two-tets-sharing-an-edge (fixed e464500)"], "edge_manifold": False}
 
 
 def run(ctx):
